@@ -36,6 +36,12 @@ func ParseTimestamp(s string) (Timestamp, error) {
 	if err != nil {
 		return 0, fmt.Errorf("invalid timestamp: %s", err)
 	}
+	if sec := t.Unix(); sec < 0 || sec > math.MaxUint32 {
+		return 0, fmt.Errorf("invalid timestamp: %s is out of range", s)
+	}
+	if t.Nanosecond() != 0 {
+		return 0, fmt.Errorf("invalid timestamp: %s has fractional seconds", s)
+	}
 	return TimestampFromStdTime(t), nil
 }
 
